@@ -21,6 +21,17 @@
    (st)->celt_dec_offset == __CPROVER_old((st)->celt_dec_offset) && (st)->silk_dec_offset == __CPROVER_old((st)->silk_dec_offset) && \
    (st)->decode_gain == __CPROVER_old((st)->decode_gain) && (st)->complexity == __CPROVER_old((st)->complexity) && (st)->arch == __CPROVER_old((st)->arch))
 
+/* what opus_decode_native establishes from the TOC byte before it hands a real frame to opus_decode_frame (RFC 6716 table 2):
+   the mode can code this bandwidth and this frame duration.  Required by the assumed contract of opus_decode_frame for real frames
+   (so the decode_native groups discharge it at every call), assumed by the decode_frame groups. */
+#define DEC_TOC_OK(st) ( \
+   ((st)->mode == MODE_SILK_ONLY && (st)->bandwidth >= OPUS_BANDWIDTH_NARROWBAND && (st)->bandwidth <= OPUS_BANDWIDTH_WIDEBAND && \
+      ((st)->frame_size == (st)->Fs / 100 || (st)->frame_size == (st)->Fs / 50 || (st)->frame_size == (st)->Fs / 25 || (st)->frame_size == 3 * (st)->Fs / 50)) || \
+   ((st)->mode == MODE_HYBRID && ((st)->bandwidth == OPUS_BANDWIDTH_SUPERWIDEBAND || (st)->bandwidth == OPUS_BANDWIDTH_FULLBAND) && \
+      ((st)->frame_size == (st)->Fs / 100 || (st)->frame_size == (st)->Fs / 50)) || \
+   ((st)->mode == MODE_CELT_ONLY && ((st)->bandwidth == OPUS_BANDWIDTH_NARROWBAND || (st)->bandwidth == OPUS_BANDWIDTH_WIDEBAND || \
+       (st)->bandwidth == OPUS_BANDWIDTH_SUPERWIDEBAND || (st)->bandwidth == OPUS_BANDWIDTH_FULLBAND) && (st)->frame_size <= (st)->Fs / 50) )
+
 #define MAX_PCM_SAMPLES (1 << 24)
 #endif /* part 1 */
 
@@ -31,6 +42,7 @@ __CPROVER_requires(__CPROVER_is_fresh(st, sizeof(*st)) && DEC_OK(st))
 __CPROVER_requires(0 < frame_size && frame_size <= MAX_PCM_SAMPLES && __CPROVER_is_fresh(pcm, (size_t)frame_size * st->channels * sizeof(opus_res)))
 __CPROVER_requires(data == NULL ? 1 : (0 <= len && len <= 1275 + 1275 && (len == 0 || __CPROVER_is_fresh(data, len))))
 __CPROVER_requires(decode_fec == 0 || decode_fec == 1)
+__CPROVER_requires((data != NULL && len > 1) ==> DEC_TOC_OK(st))
 __CPROVER_assigns(st->DecControl, st->rangeFinal, st->prev_mode, st->prev_redundancy, __CPROVER_object_whole(pcm))
 __CPROVER_ensures(__CPROVER_return_value == OPUS_BAD_ARG || __CPROVER_return_value == OPUS_BUFFER_TOO_SMALL ||
                   __CPROVER_return_value == OPUS_INTERNAL_ERROR || __CPROVER_return_value == OPUS_INVALID_PACKET ||
